@@ -76,6 +76,13 @@ func c13HTTPBase(c byte) byte {
 }
 
 func c13HTTPCase(interval time.Duration, threshold, maxRetries int, pattern string, pending bool) (obs c13Obs, bad, sig string) {
+	return c13HTTPCaseX(interval, threshold, maxRetries, pattern, pending, false, false)
+}
+
+// stuckWrite: the outstanding user call's POST is never answered at all (its write is still in progress
+// when the peer goes silent) instead of being answered with a silent event stream.  logged: the session
+// runs through the SDK's LoggingTransport.
+func c13HTTPCaseX(interval time.Duration, threshold, maxRetries int, pattern string, pending, stuckWrite, logged bool) (obs c13Obs, bad, sig string) {
 	fail := func(s, format string, a ...any) {
 		if bad == "" {
 			sig, bad = "c13 http "+s, fmt.Sprintf(format, a...)
@@ -121,6 +128,10 @@ func c13HTTPCase(interval time.Duration, threshold, maxRetries int, pattern stri
 		case m.Method == "initialize":
 			return mk(req, 200, "application/json", `{"jsonrpc":"2.0","id":`+string(m.ID)+`,"result":{"protocolVersion":"2025-06-18","capabilities":{},"serverInfo":{"name":"peer","version":"1"}}}`, "eof"), nil
 		case m.Method == "tools/list":
+			if stuckWrite {
+				<-req.Context().Done() // the POST itself hangs: no response headers ever
+				return nil, req.Context().Err()
+			}
 			return mk(req, 200, "text/event-stream", "", "hang"), nil // the outstanding user call: never answered
 		case m.Method == "ping":
 			act := byte('A')
@@ -164,7 +175,11 @@ func c13HTTPCase(interval time.Duration, threshold, maxRetries int, pattern stri
 		return mk(req, 200, "application/json", `{"jsonrpc":"2.0","id":`+string(m.ID)+`,"error":{"code":-32601,"message":"method not found"}}`, "eof"), nil
 	}}
 	c := NewClient(&Implementation{Name: "cli", Version: "1"}, &ClientOptions{KeepAlive: interval, KeepAliveFailureThreshold: threshold, Logger: quietLogger})
-	cs, err := c.Connect(ctx, &StreamableClientTransport{Endpoint: "http://peer.test/mcp", HTTPClient: hx.client(), MaxRetries: maxRetries}, &ClientSessionOptions{ProtocolVersion: "2025-06-18"})
+	var tr Transport = &StreamableClientTransport{Endpoint: "http://peer.test/mcp", HTTPClient: hx.client(), MaxRetries: maxRetries}
+	if logged {
+		tr = &LoggingTransport{Transport: tr, Writer: io.Discard}
+	}
+	cs, err := c.Connect(ctx, tr, &ClientSessionOptions{ProtocolVersion: "2025-06-18"})
 	if err != nil {
 		return obs, "connect: " + err.Error(), "c13 http connect-failed"
 	}
@@ -235,14 +250,20 @@ func TestVerifC13HTTP(t *testing.T) {
 	for _, cfg := range []struct {
 		maxRetries int
 		pending    bool
-	}{{0, false}, {-1, false}, {0, true}} {
+		stuckWrite bool
+		logged     bool
+	}{{0, false, false, false}, {-1, false, false, false}, {0, true, false, false}, {0, true, true, false}, {0, true, true, true}, {0, false, false, true}} {
 		maxRetries, pending := cfg.maxRetries, cfg.pending
 		syms := c13HTTPSymbols
 		if maxRetries < 0 {
 			syms = strings.ReplaceAll(syms, "I", "") // with retries disabled a stream that needs resuming ends the connection by design
 		}
 		for th := env.Pick(1, 0); th <= 3; th++ {
-			gen("", min(th+env.Pick(1, 2), env.Pick(4, 5)-btoi(pending)), syms, func(p string) {
+			depth := min(th+env.Pick(1, 2), env.Pick(4, 5)-btoi(pending))
+			if cfg.stuckWrite || cfg.logged {
+				depth = min(depth, th+1, env.Pick(3, 4)) // the added configurations: one pattern length less
+			}
+			gen("", depth, syms, func(p string) {
 				idx, mine := cases.Next()
 				if !mine {
 					return
@@ -255,10 +276,12 @@ func TestVerifC13HTTP(t *testing.T) {
 							bad, sig = fmt.Sprintf("pattern %q: panic / bubble failure: %v", p, r), "c13 http panic-or-leak"
 						}
 					}()
-					synctest.Test(t, func(t *testing.T) { obs, bad, sig = c13HTTPCase(interval, th, maxRetries, p, pending) })
+					synctest.Test(t, func(t *testing.T) {
+						obs, bad, sig = c13HTTPCaseX(interval, th, maxRetries, p, pending, cfg.stuckWrite, cfg.logged)
+					})
 				}()
 				desc := func() string {
-					return fmt.Sprintf("streamable-http client MaxRetries=%d interval=%v threshold=%d fates=%q outstanding-call=%v", maxRetries, interval, th, p, pending)
+					return fmt.Sprintf("streamable-http client MaxRetries=%d interval=%v threshold=%d fates=%q outstanding-call=%v its-POST-unanswered=%v logging-transport=%v", maxRetries, interval, th, p, pending, cfg.stuckWrite, cfg.logged)
 				}
 				if bad != "" {
 					cases.Violate(idx, sig, bad+" ["+desc()+"]", len(p)+1)
